@@ -45,6 +45,15 @@ def gen_label(rng, k=3, binary=False):
     if r < 0.15 and v >= 0: return "+%d" % v
     return str(v)
 
+SIZE_MAX = 2 ** 64 - 1
+def pick_batch(rng, n, small, zero_ok=False):
+    """maximumBatchSize / batchSize: the small values as before, and (about 45%) one of {1, 2, n-1, n, n+1, 2^31, 2^32+1, 2^63,
+    SIZE_MAX-1, SIZE_MAX}, n = number of records the generator intends to write"""
+    if rng.random() < 0.55: return rng.choice(small)
+    v = rng.choice([1, 2, n - 1, n, n + 1, 2 ** 31, 2 ** 32 + 1, 2 ** 63, SIZE_MAX - 1, SIZE_MAX, SIZE_MAX - n + 1, SIZE_MAX - n + 2])
+    v = min(v, SIZE_MAX)
+    return v if v >= 1 or (zero_ok and v == 0) else 1
+
 EOLS = ["\n", "\n", "\n", "\r\n", "\r"]
 SEPS = [",", ",", ",", ";", " ", " ", "\t", "|", ":"]
 
@@ -54,7 +63,7 @@ def gen_csv(rng, big=False):
     sep = rng.choice(SEPS); cm = rng.choice(["#", "#", "%"])
     ncol = rng.randint(1, 6); nrow = rng.randint(1, 12 if not big else 40)
     nout = rng.randint(1, 3)
-    mb = rng.choice([1, 2, 3, 5, 10, 256])
+    mb = pick_batch(rng, nrow, [1, 2, 3, 5, 10, 256])
     binary = rng.random() < 0.3; k = rng.randint(1, 4)
     ws = sep in " \t"
     eol = rng.choice(EOLS); mixed = rng.random() < 0.15
@@ -80,13 +89,14 @@ def gen_csv(rng, big=False):
     for l in lines: text += l + (rng.choice(EOLS) if mixed else eol)
     if rng.random() < 0.15: text = text.rstrip("\r\n")
     if rng.random() < 0.1: text += rng.choice(["\n", "\n\n", " \n", "\r\n\r\n"])
-    if rng.random() < 0.02: text = rng.choice(["", "\n", cm + " only\n", "  "])
+    if rng.random() < 0.04: text = rng.choice(["", "\n", cm + " only\n", "  ", "\r\n\r\n", " \t \n", cm + "\n" + cm + " 1,2\n"])
     return ["CSV", variant, prec, lp, str(nout), str(ord(sep)), str(ord(cm)), str(mb), rng.choice("sf")], text.encode("latin1")
 
 def gen_scl(rng):
-    ty = rng.choice("iufd"); cm = rng.choice("#%"); mb = rng.choice([1, 2, 3, 7, 256])
-    toks = []
-    for _ in range(rng.randint(0, 14)):
+    ty = rng.choice("iufd"); cm = rng.choice("#%")
+    toks = []; ntok = rng.randint(0, 14)
+    mb = pick_batch(rng, ntok, [1, 2, 3, 7, 256])
+    for _ in range(ntok):
         if ty == "i": toks.append(rng.choice([str(rng.randint(-50, 50)), "+7", "2147483647", "-2147483648", "2147483648", "1.5"][: 3 if rng.random() < 0.9 else 6]))
         elif ty == "u": toks.append(rng.choice([str(rng.randint(0, 99)), "4294967295", "4294967296", "-1"][: 1 if rng.random() < 0.9 else 4]))
         elif ty == "f": toks.append(rng.choice(["1.5", "-0.25", "3", "12.125", "0.5e1", "-2e-1" if False else "8", "inf", "1024.0625"]))
@@ -95,7 +105,9 @@ def gen_scl(rng):
     for t in toks:
         text += t + rng.choice([" ", " ", "\n", "\t", "\r\n", "  ", " " + cm + "c\n" if rng.random() < 0.2 else " "])
     if rng.random() < 0.3: text = text.rstrip()
-    return ["SCL", ty, "44", str(ord(cm)), str(mb)], text.encode("latin1")
+    if rng.random() < 0.08:        # no record at all: empty, blank-only, comment-only, white-space-only
+        text = rng.choice(["", "\n", "\n\n\n", cm + " only a comment\n", cm + " 1 2 3", "  ", " \t \r\n ", "\n" + cm + " c\n\n"])
+    return ["SCL", ty, "44", str(ord(cm)), str(mb), rng.choice("sf")], text.encode("latin1")
 
 def gen_svm(rng, big=False, defect=None):
     variant = rng.choice(["cls", "reg"]); prec = rng.choice("df"); store = rng.choice("vc")
@@ -133,8 +145,8 @@ def gen_svm(rng, big=False, defect=None):
     if rng.random() < 0.15: text = text.rstrip("\r\n")
     top = max([j for _, ps in recs for j, _ in ps] + [0])
     hi = rng.choice([0, 0, 0, top, top + 3, max(top - 1, 0)]) if top < 200000 else 0
-    bs = rng.choice([0, 1, 2, 3, 256])
-    if defect == "empty": text = rng.choice(["", "\n", "\n\n\n"])
+    bs = pick_batch(rng, nrow, [0, 1, 2, 3, 256], zero_ok=True)
+    if defect == "empty" or (defect is None and rng.random() < 0.03): text = rng.choice(["", "\n", "\n\n\n"])
     return ["SVM", variant, prec, store, str(hi), str(bs), rng.choice("sf")], text.encode("latin1")
 
 ALPHA = b"0123456789.,;-+eE? \t\r\n#:x|naif%"
@@ -190,8 +202,9 @@ def gen_value(rng, prec):
 
 def gen_xcsv(rng):
     variant = rng.choice(["data", "cls", "reg"]); prec = rng.choice("df"); lp = rng.choice("FL")
-    sep = rng.choice([",", ";", " ", " ", "\t", "\t", "|", ":", "\x0b", "\x0c"]); mb = rng.choice([1, 2, 3, 256]); nout = rng.randint(1, 3)
+    sep = rng.choice([",", ";", " ", " ", "\t", "\t", "|", ":", "\x0b", "\x0c"]); nout = rng.randint(1, 3)
     nrow = rng.randint(1, 8); ncol = rng.randint(1, 5)
+    mb = pick_batch(rng, nrow, [1, 2, 3, 256])
     zero_label = rng.random() < 0.9
     labs = [rng.randint(0 if zero_label else 1, 3) for _ in range(nrow)]
     if zero_label: labs[rng.randrange(nrow)] = 0
@@ -205,8 +218,9 @@ def gen_xcsv(rng):
     return " ".join(["XCSV", variant, prec, lp, str(nout), str(ord(sep)), str(mb), rng.choice("sf"), ";".join(rows)])
 
 def gen_xsvm(rng):
-    variant = rng.choice(["cls", "reg"]); store = rng.choice("vc"); bs = rng.choice([0, 1, 2, 256])
+    variant = rng.choice(["cls", "reg"]); store = rng.choice("vc")
     nrow = rng.randint(1, 8); ncol = rng.randint(1, 6)
+    bs = pick_batch(rng, nrow, [0, 1, 2, 256], zero_ok=True)
     zero_label = rng.random() < 0.9; k = rng.randint(1, 3)
     labs = [rng.randint(0 if zero_label else 1, k) for _ in range(nrow)]
     if zero_label: labs[rng.randrange(nrow)] = 0
@@ -216,6 +230,22 @@ def gen_xsvm(rng):
         l = str(labs[i]) if variant == "cls" else "%.17g" % gen_value(rng, "d")
         rows.append(l + "|" + ",".join(vals))
     return " ".join(["XSVM", variant, store, str(bs), ";".join(rows)])
+
+def gen_obs(rng):
+    """detail::optimalBatchSizes(n, m) directly, 64-bit magnitudes for both arguments; at most 300 batches"""
+    big = [2 ** 31, 2 ** 32 + 1, 2 ** 63, 2 ** 63 + 5, SIZE_MAX - 1, SIZE_MAX, rng.getrandbits(64), rng.getrandbits(rng.randint(20, 64))]
+    while True:
+        n = rng.choice([0, 1, 2, 3, 7, 100, rng.randint(0, 5000)] + big)
+        m = rng.choice([1, 2, 3, rng.randint(1, 300), n - 1, n, n + 1, n // 2, n // 2 + 1, n // 3 + 1, n // 7 + 1, n // rng.randint(1, 299) + 1,
+                        SIZE_MAX - n + 1, SIZE_MAX - n + 2] + big)
+        if 1 <= m <= SIZE_MAX and (n + m - 1) // m <= 300: return "OBS %d %d" % (n, m)
+
+def gen_obi(rng):
+    """Data<unsigned>(n, 0, b): SharedContainer::initializeBatches, any 64-bit batch size"""
+    while True:
+        n = rng.choice([0, 1, 2, 3, 7, 100, rng.randint(0, 3000)])
+        b = rng.choice([0, 1, 2, 3, rng.randint(1, 300), max(n - 1, 0), n, n + 1, n // 2 + 1, n // 7 + 1, 2 ** 31, 2 ** 32 + 1, 2 ** 63, SIZE_MAX - 1, SIZE_MAX])
+        if b == 0 or n // b <= 300: return "OBI %d %d" % (n, b)
 
 # ------------------------------------------------------------------------------------------------
 # spec monitor: the property's predicate on the implementation's output line (independent of the model)
@@ -233,8 +263,11 @@ def monitor_line(case, o):
     """returns list of (key, message)"""
     t = case.split(" "); kind = t[0]
     if kind in ("XCSV", "XSVM"): return monitor_roundtrip(t, o)
+    if kind in ("OBS", "OBI"): return monitor_sizes(t, o)
     site = {"CSV": "csv:" + t[1], "SCL": "csv:scalar-" + t[1], "SVM": "svm:" + t[1] + ":" + ("dense" if t[3] == "v" else "compressed") if kind == "SVM" else ""}[kind]
     if o == "EXC": return []
+    if o.startswith("REUSE-DIFF"):
+        return [(site + ":reused-target", "importing into a dataset object that already holds data gives a different result than importing into a fresh object: %s" % o[:300])]
     if o.startswith("STDEXC") or o.startswith("UNKEXC"):
         return [(site + ":foreign-exception", "importer failed with %s instead of shark::Exception" % o)]
     if not o.startswith("OK "): return [(site + ":no-output", "no result line: %r" % o[:80])]
@@ -276,6 +309,21 @@ def wellformed(t, d):
         if bad: break
     return bad
 
+def monitor_sizes(t, o):
+    """batch-size routines called directly: sizes sum to n, none empty, none above the limit, as equal as possible /
+    full batches then the remainder"""
+    n, m = int(t[1]), int(t[2])
+    site = "batch:optimalBatchSizes" if t[0] == "OBS" else "batch:initializeBatches"
+    if not o.startswith("S"): return [(site + ":no-output", "no result: %r" % o[:80])]
+    s = [int(x) for x in o[2:].split(",")] if o[2:] else []
+    if t[0] == "OBS":
+        if sum(s) != n or any(x < 1 or x > m for x in s) or len(s) != (n + m - 1) // m or (s and max(s) - min(s) > 1):
+            return [(site + ":sizes", "optimalBatchSizes(%d, %d) = %s" % (n, m, s[:12]))]
+    else:
+        want = [n] if m == 0 or m > n else [m] * ((n + m - 1) // m - 1) + [n - ((n + m - 1) // m - 1) * m]
+        if s != want: return [(site + ":sizes", "Data(%d, element, %d) has batches %s" % (n, m, s[:12]))]
+    return []
+
 def monitor_roundtrip(t, o):
     kind = t[0]
     site = ("csv-export:" + t[1]) if kind == "XCSV" else ("svm-export:" + t[1])
@@ -283,6 +331,8 @@ def monitor_roundtrip(t, o):
         return [(site + ":failed", "export/import of a valid dataset did not succeed: %s" % o[:60])]
     m = re.match(r"X text=(\S*) (.*)$", o)
     rest = m.group(2)
+    if rest.startswith("REUSE-DIFF"):
+        return [(site + ":reused-target", "re-importing the exported text into a dataset object that already holds data gives a different result than into a fresh object: %s" % rest[:300])]
     if not rest.startswith("OK "): return [(site + ":reimport-failed", "exported text is rejected by the importer: %s" % rest[:40])]
     d = parse_ok(rest)
     rows = t[-1].split(";")
@@ -392,7 +442,7 @@ def main():
     def mode_of_line(l):
         t = l.split(" ")
         if t[0][0] == "X": return "roundtrip"
-        need = {"CSV": 10, "SCL": 6, "SVM": 8}.get(t[0], 99)
+        need = {"CSV": 10, "SCL": 6, "SVM": 8}.get(t[0], 99)     # OBS/OBI: no payload -> exact
         pay = bytes.fromhex(t[-1]) if len(t) >= need and re.fullmatch(r"(?:[0-9a-f]{2})*", t[-1]) else b""
         return exactness(pay, 30 if t[:2] == ["SCL", "f"] else 290)
     def load(path):
@@ -420,6 +470,8 @@ def main():
             k = rng.random()
             h = gen_csv(rng)[0] if k < 0.5 else gen_scl(rng)[0] if k < 0.65 else gen_svm(rng)[0]
             add(h, noise(rng) if rng.random() < 0.6 else mutate(rng, (gen_csv(rng)[1] if h[0] != "SVM" else gen_svm(rng)[1]), bytes(range(256)), 6), "monitor")
+        for _ in range(200 * scale): cases.append((gen_obs(rng), "exact"))
+        for _ in range(80 * scale): cases.append((gen_obi(rng), "exact"))
         for _ in range(250 * scale): cases.append((gen_xcsv(rng), "roundtrip"))
         for _ in range(300 * scale): cases.append((gen_xsvm(rng), "roundtrip"))
 
@@ -451,7 +503,7 @@ def main():
     for i, ((line, mode), (m_o, _, _), (i_o, rc, err)) in enumerate(zip(cases, mo, io)):
         t = line.split(" ")
         site = {"CSV": "csv:" + t[1], "SCL": "csv:scalar-" + t[1], "SVM": "svm:" + t[1] + ":" + ("dense" if len(t) > 3 and t[3] == "v" else "compressed"),
-                "XCSV": "csv-export:" + t[1], "XSVM": "svm-export:" + t[1]}[t[0]]
+                "XCSV": "csv-export:" + t[1], "XSVM": "svm-export:" + t[1], "OBS": "batch:optimalBatchSizes", "OBI": "batch:initializeBatches"}[t[0]]
         shape = ""
         if t[0] == "SVM":
             c = svm_input_class(bytes.fromhex(t[7]) if len(t) > 7 else b"")
